@@ -58,7 +58,7 @@ Section HM3.
   Lemma in_abs_of : forall ns b, In b (abs_of ns) <->
     exists j nd, nth_error ns j = Some nd /\ nfilled nd = true /\ b = (nkey nd, nval nd).
   Proof.
-    intros. unfold ProofsHM2.abs_of. rewrite in_map_iff. split.
+    intros. unfold Model.abs_of. rewrite in_map_iff. split.
     - intros (nd & <- & H). apply filter_In in H. destruct H as [H1 H2].
       apply In_nth_error in H1. destruct H1 as (j & Hj). eauto.
     - intros (j & nd & Hj & F & ->). exists nd. split; [reflexivity|]. apply filter_In.
@@ -71,7 +71,7 @@ Section HM3.
   Lemma KU_abs : forall ns, KU ns -> keys_nodup (abs_of ns).
   Proof.
     induction ns as [|a ns IH]; intros U; [constructor|].
-    specialize (IH (KU_tail _ _ U)). unfold ProofsHM2.abs_of in *. cbn [filter].
+    specialize (IH (KU_tail _ _ U)). unfold Model.abs_of in *. cbn [filter].
     destruct (nfilled a) eqn:E; [|assumption]. cbn [map].
     apply keys_nodup_cons. split; [|assumption].
     intros b Hb. apply in_abs_of in Hb. destruct Hb as (j & nd & Hj & F & ->). cbn [fst].
@@ -93,7 +93,7 @@ Section HM3.
       replace (j - length l1) with (S (j - length l1 - 1)) in Hj by lia. cbn in Hj.
       assert (keqb (nkey ni) (nkey nj) = false) as X'.
       { apply (X (nkey ni, nval ni) (nkey nj, nval nj)).
-        - unfold ProofsHM2.abs_of. cbn [filter]. rewrite Fi. left; reflexivity.
+        - unfold Model.abs_of. cbn [filter]. rewrite Fi. left; reflexivity.
         - apply in_abs_of. eauto. }
       congruence. }
     intros ns ND i j ni nj Hi Hj Fi Fj Q.
@@ -128,10 +128,10 @@ Section HM3.
   Proof. intros. apply abs_of_unfilled. intros nd H. apply repeat_spec in H. subst. reflexivity. Qed.
 
   Lemma abs_of_filter : forall ns, abs_of (filter nfilled ns) = abs_of ns.
-  Proof. intros. unfold ProofsHM2.abs_of. rewrite filter_filter_id. reflexivity. Qed.
+  Proof. intros. unfold Model.abs_of. rewrite filter_filter_id. reflexivity. Qed.
 
   Lemma filled_len_abs : forall ns, length (filter nfilled ns) = length (abs_of ns).
-  Proof. intros. unfold ProofsHM2.abs_of. rewrite map_length. reflexivity. Qed.
+  Proof. intros. unfold Model.abs_of. rewrite map_length. reflexivity. Qed.
 
   (* ---- the in-place compaction loop computes the stable compaction *)
   Lemma cmp_move_rif : forall n i j ns,
@@ -315,7 +315,7 @@ Section HM3.
     assert (kvf_eq nodes2 (hnodes m')) as KV2' by (eapply kvf_eq_trans; eauto).
     split; [reflexivity|].
     assert (hm_abs K V m' = hm_abs K V m) as HABS.
-    { unfold hm_abs. rewrite <- (kvf_eq_abs K V _ _ KV2'). exact Habs2. }
+    { unfold Model.hm_abs. rewrite <- (kvf_eq_abs K V _ _ KV2'). exact Habs2. }
     split; [|split; [exact HABS|split; [exact SZ'|split; [lia|split]]]].
     - (* the invariant *)
       exists ch', (unfilled_idx K V nodes2 0).
@@ -342,8 +342,8 @@ Section HM3.
       + exact (KU_kvf _ _ KV2' U2).
       + rewrite <- (kvf_eq_filled_len K V _ _ KV2'). rewrite filled_len_abs, Habs2, <- filled_len_abs. exact Hsize.
       + intros Ez. apply length_zero_iff_nil. destruct (Hn4 Ez). lia.
-      + unfold MAXLF. lia.
-      + unfold MAXLF. fold nc0. lia.
+      + unfold Model.MAXLF. lia.
+      + unfold Model.MAXLF. fold nc0. lia.
       + intros Hb. apply Hn3. assumption.
     - intros Hpos. destruct (Nat.eq_dec bc 0) as [Ez|]; [|lia]. destruct (Hn4 Ez). lia.
     - split; [|split].
